@@ -253,36 +253,48 @@ def extent_findings(dv: DecoderView):
 
 
 def delimited_flags(dv: DecoderView):
-    """Boolean locals that say 'the candidate frame is delimited in the buffer': every definition is
-    `search_result != -1` for an SOH-anchored text search, or the constant True under such a test."""
+    """Boolean locals that say 'the candidate frame is delimited in the buffer'.  Every definition is
+      * `search_result != -1` for an SOH-anchored text search, or
+      * the constant True under such a test, or
+      * the constant False where nothing delimits the frame: the next-frame search failed AND the trailer search (or
+        the search for the trailer's closing SOH) failed."""
+    from .guards import facts
     out = set()
-    text_search_names = set()
+    kinds = {}  # search local -> 'next' | 'trailer' | 'end' | 'other'
     for n in walk_no_nested(dv.fn):
         if isinstance(n, ast.Assign) and len(n.targets) == 1 and isinstance(n.targets[0], ast.Name) and isinstance(n.value, ast.Call) \
                 and isinstance(n.value.func, ast.Attribute) and n.value.func.attr in ("find", "index") and unparse(n.value.func.value) != dv.buf \
                 and n.value.args and (dv.fold_str(n.value.args[0]) or "").startswith(dv.soh):
-            text_search_names.add(n.targets[0].id)
+            needle = dv.fold_str(n.value.args[0])
+            k = "end" if needle == dv.soh else ("trailer" if needle == dv.soh + "10=" else ("next" if needle.startswith(dv.soh + "8=") else "other"))
+            kinds.setdefault(n.targets[0].id, set()).add(k)
+    text_search_names = set(kinds)
     cands = {}
     for n in dv.cfg.nodes:
         if n.kind == "stmt" and isinstance(n.ast, ast.Assign) and len(n.ast.targets) == 1 and isinstance(n.ast.targets[0], ast.Name):
             cands.setdefault(n.ast.targets[0].id, []).append(n)
     for nm, nodes in cands.items():
         ok = True
-        seen_cmp = False
+        positive = False
         for n in nodes:
             v = n.ast.value
+            fs = set()
+            for t, lab in dv.cfg.guards(n.id, exc=False):
+                fs |= facts(t, lab == "true")
             if isinstance(v, ast.Compare) and len(v.ops) == 1 and isinstance(v.ops[0], ast.NotEq) and isinstance(v.left, ast.Name) \
                     and v.left.id in text_search_names and unparse(v.comparators[0]) == "-1":
-                seen_cmp = True
+                positive = True
             elif isinstance(v, ast.Constant) and v.value is True:
-                from .guards import facts
-                fs = set()
-                for t, lab in dv.cfg.guards(n.id, exc=False):
-                    fs |= facts(t, lab == "true")
                 if not any(tv and a.endswith("!= -1") and a.split(" ")[0] in text_search_names for a, tv in fs):
+                    ok = False
+                positive = True
+            elif isinstance(v, ast.Constant) and v.value is False:
+                failed = {a.split(" ")[0] for a, tv in fs if (a.endswith("!= -1") and not tv) or (a.endswith("== -1") and tv)}
+                failed_kinds = set().union(*[kinds.get(x, set()) for x in failed]) if failed else set()
+                if not ("next" in failed_kinds and ({"trailer", "end"} & failed_kinds)):
                     ok = False
             else:
                 ok = False
-        if ok and seen_cmp:
+        if ok and positive:
             out.add(nm)
     return out
